@@ -435,6 +435,27 @@ func TwoField(a Annot) []*Shape {
 	return out
 }
 
+// Mixed: three-field structs with a _-prefixed, blank or embedded field in each position (the
+// quick tier's stand-in for the two-field family of the thorough tier).
+func Mixed(a Annot) []*Shape {
+	k := kindByID
+	rows := [][]Form{
+		{{"priv", k("int")}, {"und", k("string")}, {"pub", k("float64")}},
+		{{"und", k("int")}, {"priv", k("string")}, {"blank", k("int")}},
+		{{"priv", k("int")}, {"blank", k("duration")}, {"priv", k("opt-int")}},
+		{{"emb", k("emb.Pub")}, {"und", k("int")}, {"priv", k("int")}},
+		{{"priv", k("T")}, {"und", k("T")}, {"pub", k("slice-T")}},
+		{{"pub", k("int")}, {"priv", k("int")}, {"und", k("opt-int")}},
+		{{"priv", k("int")}, {"emb", k("emb.Empty")}, {"priv", k("int")}},
+	}
+	var out []*Shape
+	for _, r := range rows {
+		s := mkShape("mixed", a, r, nil)
+		out = append(out, s)
+	}
+	return out
+}
+
 // Grouped: `fa, fb K` in one field declaration (the second name is printed from go/types, not
 // from the syntax), private and public.
 func Grouped(a Annot) []*Shape {
